@@ -240,12 +240,12 @@ class Summariser:
     def inlinable(self, fn: FunctionInfo | None, tail: bool = False) -> bool:
         if fn is None or fn.qualname in KNOWN_FUNCTIONS:
             return False
-        if fn.is_property or fn.is_classmethod:
+        if fn.is_property:
             return False
         # a decorator changes what calling the function means (memoisation, context managers, ...)
         # (memoisation of a pure function does not: its hazards - I/O, shared mutable results, stale
         # derived values - are judged by dedicated rules that look at the decorator itself)
-        if any(d not in ("staticmethod",) and not _is_cache_decorator(d) for d in fn.decorators):
+        if any(d not in ("staticmethod", "classmethod") and not _is_cache_decorator(d) for d in fn.decorators):
             return False
         for n in ast.walk(fn.node):
             if isinstance(n, (ast.Yield, ast.YieldFrom, ast.Await)):
